@@ -22,7 +22,8 @@ EXTENDS Alpha
 
 ---------------------------------------------------------------------------
 (* Cache fields *)
-Cs0 == [lim |-> 0, grp |-> {}, summ |-> FALSE, filt |-> FALSE]
+Cs0 == [lim |-> -1,      \* -1: no LIMIT yet (slice_head(0) is a limit, fix F37)
+        grp |-> {}, summ |-> FALSE, filt |-> FALSE]
 
 RECURSIVE AggWinOps(_)
 AggWinOps(e) ==        \* the aggregate / window operator nodes of a surface expression
@@ -59,8 +60,8 @@ Rq2(c, t, ck, ek, m) ==
         ops == Flat([i \in DOMAIN es |-> AggWinOps(es[i])])
         partset == {t.part[i] : i \in DOMAIN t.part}
     IN
-    IF m.v \in {"filter", "summarize", "arrange", "group_by"} /\ c.lim # 0 THEN "after slice_head"
-    ELSE IF m.v = "mutate" /\ c.lim # 0 /\ ops # <<>> THEN "window in mutate after slice_head"
+    IF m.v \in {"filter", "summarize", "arrange", "group_by"} /\ c.lim # -1 THEN "after slice_head"
+    ELSE IF m.v = "mutate" /\ c.lim # -1 /\ ops # <<>> THEN "window in mutate after slice_head"
     ELSE IF m.v = "mutate" /\ \E i \in DOMAIN ops : \E x \in ColsOf(ops[i]) \cap Scope(t) : ek[x] \in {"w", "a"}
          THEN "nested window / aggregation in mutate"
     ELSE IF m.v = "filter" /\ \E x \in cols : ek[x] = "w" THEN "window function in filter"
